@@ -147,10 +147,10 @@ def lean_source_scan():
 def theorem_audit(prop_id, scratch):
     """Every theorem listed for the property exists and is axiom-clean.
     Returns list of obligation dicts {name, kind, ok, axioms|error}."""
-    props = json.load(open(os.path.join(LEAN_DIR, "props.json")))
-    entry = props.get(prop_id)
-    if not entry:
+    pj = os.path.join(LEAN_DIR, "props", prop_id + ".json")
+    if not os.path.exists(pj):
         return []
+    entry = json.load(open(pj))
     mods = entry["modules"]
     thms = entry["theorems"]
     src = "".join("import %s\n" % m for m in mods)
@@ -177,6 +177,18 @@ def theorem_audit(prop_id, scratch):
             res.append({"name": nm, "kind": t.get("kind", "full"), "ok": False, "error": " | ".join(err)[:400],
                         "what": t.get("what", "")})
     return res
+
+
+def leanchecker(prop_id):
+    """Thorough tier: re-check the compiled Props module with the independent checker."""
+    pj = os.path.join(LEAN_DIR, "props", prop_id + ".json")
+    if not os.path.exists(pj):
+        return []
+    mods = json.load(open(pj))["modules"]
+    p = subprocess.run(["lake", "env", "leanchecker"] + mods, cwd=LEAN_DIR, stdout=subprocess.PIPE,
+                       stderr=subprocess.STDOUT, text=True, env=_clean_env(), timeout=3000)
+    return [{"name": "leanchecker " + " ".join(mods), "kind": "recheck", "ok": p.returncode == 0,
+             "what": "independent re-check of the compiled .olean files" + ("" if p.returncode == 0 else ": " + p.stdout[-300:])}]
 
 
 class Driver:
@@ -273,6 +285,18 @@ class Ctx:
     def tie_break(self, name, what, replay):
         if len(self.tie_breaks) < 200:
             self.tie_breaks.append({"name": name, "what": what, "replay": replay})
+
+    def lean_obligation(self, name, lean_source, what=""):
+        """Kernel-check a generated Lean file (regenerated parameters `G`): ok iff it elaborates
+        without error and without `sorry`."""
+        path = os.path.join(self.scratch, "Gen_%s_%d.lean" % (self.prop, len(self.obligations)))
+        with open(path, "w") as f:
+            f.write(lean_source)
+        rc, out = lean_run_file(path)
+        ok = rc == 0 and "error" not in out and "sorry" not in out
+        self.obligations.append({"name": name, "kind": "regenerated", "ok": ok,
+                                 "what": what if ok else (what + " :: " + out[-600:])})
+        return ok
 
     def obligation(self, name, ok, detail=""):
         self.obligations.append({"name": name, "kind": "regenerated", "ok": bool(ok), "what": detail})
